@@ -1,6 +1,7 @@
 //! C07 — every opcode is executed as exactly the instruction it encodes, or rejected.
 use crate::hv::dom;
 use crate::hv::e1::{Case, Ctx};
+use serde_json::json;
 use crate::hv::shard::{chunk_range, no_extra, Prop, Tier, Unit};
 
 fn regfile(k: usize) -> [u32; 8] {
@@ -188,6 +189,58 @@ pub fn c07(tier: Tier, _seed: u64) -> Prop {
             }
         }));
     }
+    // ---- rejection seen through the real run loop: the unimplemented instruction is the last one before the
+    //      exit address, so PC already equals the exit address when it fails
+    units.push(Unit::new(
+        "reject-through-run",
+        16,
+        "every first word that encodes a valid-but-unimplemented instruction (benign continuation words) and one instance of every unimplemented row of the encoding table, placed as the last instruction in front of the exit address of a small program and executed by the real Cpu::run(): run() must return that instruction's error, never success",
+        move |ctx, chunk| {
+            use crate::hv::props::runloop::{run_checked, Pair, Prog};
+            let mut pair = Pair::new();
+            let mut codes: Vec<Vec<u8>> = Vec::new();
+            let (lo, hi) = crate::hv::shard::chunk_range(65536, 16, chunk);
+            for w in lo as u32..hi as u32 {
+                let mut bytes = [0u8; 12];
+                bytes[0] = (w >> 8) as u8;
+                bytes[1] = w as u8;
+                for k in (2..12).step_by(2) {
+                    bytes[k] = 0xf0;
+                }
+                if let crate::hv::isa::Decoded::ValidUnimpl { len, .. } = ctx.isa.decode(&bytes) {
+                    codes.push(bytes[..len].to_vec());
+                }
+            }
+            if chunk == 0 {
+                for (row, r) in crate::hv::isa::ROWS.iter().enumerate() {
+                    if !r.imp {
+                        let f = crate::hv::isa::Fields { rs: 8, rd: 9, ra: 1, bitn: 3, rn: 10, cc: 0, trap: 1, data: 0x0041_0200 & ((1u64 << (4 * r.pat.matches('x').count() as u32)) - 1) as u32 };
+                        codes.push(ctx.isa.encode(row, &f));
+                    }
+                }
+            }
+            for code in codes {
+                // MOV.L #imm,ER1 ; <unimplemented> ; exit: BRA exit
+                let mut c: Vec<u8> = vec![0x7a, 0x01, 0x00, 0x41, 0x02, 0x00];
+                c.extend_from_slice(&code);
+                let exit_addr = crate::hv::props::irq::CODE + c.len() as u32;
+                c.extend_from_slice(&[0x40, 0xfe]);
+                let p = Prog { code: c, exit_addr, vectors: vec![], desc: format!("unimplemented {:02x?} in front of the exit address", code) };
+                let (o, v) = run_checked(&mut pair, &p, 100);
+                ctx.st.cases += 1;
+                ctx.st.nontrivial += 1;
+                let case = json!({"reject_through_run": crate::hv::e1::hex(&code)});
+                if let Some(msg) = v {
+                    ctx.custom_violation("c07run", msg, case, json!(null), json!({"result": o.result}));
+                } else if o.result == "ok" {
+                    ctx.custom_violation("c07run", format!("run() reported success although the last instruction {:02x?} is not implemented", code), case, json!(null), json!(null));
+                }
+                if ctx.stop {
+                    return;
+                }
+            }
+        },
+    ));
     Prop {
         id: "C07",
         level: "exploration",
@@ -200,5 +253,33 @@ pub fn c07(tier: Tier, _seed: u64) -> Prop {
         units,
         extra: no_extra(),
         profiles: vec!["release"],
+    }
+}
+
+/// Replay of a `reject-through-run` counterexample.
+pub fn replay_c07run(case: &serde_json::Value) -> bool {
+    use crate::hv::props::runloop::{run_checked, Pair, Prog};
+    let code = crate::hv::e1::unhex(case["reject_through_run"].as_str().unwrap_or("")).unwrap_or_default();
+    let mut pair = Pair::new();
+    let mut c: Vec<u8> = vec![0x7a, 0x01, 0x00, 0x41, 0x02, 0x00];
+    c.extend_from_slice(&code);
+    let exit_addr = crate::hv::props::irq::CODE + c.len() as u32;
+    c.extend_from_slice(&[0x40, 0xfe]);
+    let p = Prog { code: c, exit_addr, vectors: vec![], desc: String::new() };
+    let (o, v) = run_checked(&mut pair, &p, 100);
+    println!("run() returned: {}", o.result);
+    match v {
+        Some(m) => {
+            println!("FAILS: {}", m);
+            false
+        }
+        None => {
+            if o.result == "ok" {
+                println!("FAILS: run() reported success although the last instruction {:02x?} is not implemented", code);
+                false
+            } else {
+                true
+            }
+        }
     }
 }
